@@ -17,6 +17,7 @@ mod settings;
 mod strains;
 mod maniarec;
 mod strainsvec;
+mod taiko;
 mod utilsrep;
 mod util;
 
@@ -50,6 +51,8 @@ fn main() {
         "strainsvec-replay" => strainsvec::main(rest),
         "utils-replay" => utilsrep::main(rest),
         "mania-record" => maniarec::main(rest),
+        "taiko-replay" => taiko::replay_main(rest),
+        "taiko-record" => taiko::record_main(rest),
         "mods-replay" => modsrep::main(rest),
         "convert-replay" => convert::replay_main(rest),
         "convert-record" => convert::record_main(rest),
